@@ -650,6 +650,11 @@ def jobEntry (j : Json) : Except String Json := do
       ("timeAxis", Json.bool (storesTimeAxis c)),
       ("columns", Json.arr ((columns species n v).map Json.str).toArray)]
 
+/-- the `mxstep` retry ladder of the deterministic simulator for a given cap. -/
+def jobLadder (j : Json) : Except String Json := do
+  let cap ← getNatField j "cap"
+  return Json.mkObj [("ladder", Json.arr ((Bioscrape.mxstepLadder cap 40 500).map (fun n => Json.num (JsonNumber.fromNat n))).toArray)]
+
 open Bioscrape.PowText in
 /-- the power-text model on one expression tree (`{"atom": n}` / `{"pow": [a, b]}`). -/
 partial def decPowTree (j : Json) : Except String PowTree :=
@@ -692,6 +697,7 @@ def handle (line : String) : Json :=
       if op == "entry" then jobEntry j
       else if op == "annot" then jobAnnot j
       else if op == "powtext" then jobPowText j
+      else if op == "ladder" then jobLadder j
       else if op == "sbmlimport" then jobSbmlImport (α := Rat) j
       else if num == "rat" then dispatch (α := Rat) op j else dispatch (α := Float) op j
     match r with
